@@ -3,7 +3,7 @@ Decided by: the same TLC-generated cases (grammar seeds, envelope walk, table wa
 and in --encrypt mode, twice in separate processes with one key file; leaf-wise comparison
 (out_enc[p] = out_plain[p] = in[p], or out_plain[p] is a placeholder and Decrypt(out_enc[p]) = in[p]); and in-process injection
 of unusable key material, where the output must equal the placeholder-mode output."""
-import base64, json, os, shutil, tempfile
+import base64, json, os, random, shutil, tempfile
 import common, l3, jsonx
 
 PID = "C10"
@@ -209,6 +209,55 @@ def cfg_pairs(tier):
     return ps
 
 
+def long_run(b, v, tier):
+    """Determinism and injectivity inside ONE long run and across two processes: more distinct sensitive strings than any table of a
+    'reasonable' size (2^16, 2^17) holds, the early ones recurring at the end and throughout. equal strings <=> equal ciphertexts."""
+    import re as _re, tempfile as _tf, shutil as _sh
+    wd = _tf.mkdtemp(prefix="c10long-", dir=b.root)
+    ndistinct = 70000 if tier == "quick" else 300000
+    rng = random.Random(v.seed * 17 + 3)
+    order = list(range(ndistinct)) + list(range(0, 3000)) + [rng.randrange(ndistinct) for _ in range(4000)]
+    for j in range(0, len(order), 53):
+        order.insert(j, j % 7)
+    text = lambda i: "acct-%06d/%s" % (i, "ü" * (i % 3))
+    inp = os.path.join(wd, "long.log")
+    with open(inp, "w", encoding="utf-8") as f:
+        for n, i in enumerate(order):
+            f.write('{"t":{"$date":"2025-01-01T00:00:00.000+00:00"},"s":"I","c":"COMMAND","id":%d,"ctx":"conn1","msg":"Slow query","attr":{"ns":"dbq.cq",'
+                    '"command":{"find":"cq","filter":{"k":"%s"},"$db":"dbq"}}}\n' % (7000000 + n, text(i)))
+    key = os.path.join(wd, "long.key")
+    outs = []
+    for run_no in (1, 2):
+        outp = os.path.join(wd, "long.out%d" % run_no)
+        p = common.run_cli(b, ["redact", inp, "-o", outp, "--encrypt", "-q", key], cwd=wd)
+        if p.returncode != 0:
+            _sh.rmtree(wd, ignore_errors=True)
+            raise common.Infra("redact --encrypt failed on the long input: %s" % p.stderr.decode("utf-8", "replace")[:300])
+        outs.append(open(outp, encoding="utf-8").read())
+    v.count(2)
+    v.nontrivial(("long_run", ndistinct))
+    cts = _re.findall(r'"filter":\{"k":"([^"]*)"\}', outs[0])
+    rep = {"distinct_values_in_run": ndistinct, "lines": len(order)}
+    if len(cts) != len(order):
+        v.violation("a long --encrypt run does not yield one encrypted value per input line", dict(rep, values_found=len(cts)))
+    else:
+        fwd, bwd = {}, {}
+        for n, (i, ct) in enumerate(zip(order, cts)):
+            if ct == text(i):
+                v.violation("a sensitive string is emitted in clear in a long --encrypt run", dict(rep, line_no=n, value=text(i)))
+                break
+            if fwd.setdefault(i, ct) != ct:
+                v.violation("equal strings, different ciphertexts within one long run", dict(rep, line_no=n, value=text(i), first=fwd[i], later=ct))
+                break
+            if bwd.setdefault(ct, i) != i:
+                v.violation("different strings, equal ciphertexts within one long run", dict(rep, line_no=n, value=text(i), other_value=text(bwd[ct]), ciphertext=ct))
+                break
+    if outs[0] != outs[1]:
+        v.violation("two separate runs over a long log with one key file give different outputs", rep)
+    _sh.rmtree(wd, ignore_errors=True)
+    return len(order)
+
+
 def run(tier):
     v = common.Verdict(PID, tier, "model_checking")
     b = common.build()
@@ -232,7 +281,8 @@ def run(tier):
         states += t.distinct
         trans += t.generated
     rp.finish()
-    v.cov.update({"states": states, "transitions": trans, "traces_validated_against_impl": v.cov["evaluations"], "exhaustive": True,
+    nlong = long_run(b, v, tier)
+    v.cov.update({"states": states, "transitions": trans, "traces_validated_against_impl": v.cov["evaluations"], "exhaustive": True, "long_run_lines": nlong,
                   "abstract_cases": rp.records, "flag_set_pairs": [[p.desc(), e.desc()] for p, e in pairs], "crashed_lines": rp.crashes,
                   "rule": "cases = envelope walk + grammar seeds + table walk; each concretised with near-duplicate literals (40-character common prefix), "
                           "non-ASCII, control characters, long strings; run in placeholder mode, in encrypt mode (fresh key file) and again in a separate "
